@@ -86,6 +86,8 @@ struct Flags {
     globaldefs_forced_local: bool,
     global_same_value_while_group_holds_save: bool,
     default_value_while_group_holds_save: bool,
+    global_self_alias_after_local_redefinition: bool,
+    global_noop_arithmetic_while_group_holds_save: bool,
     implicit_close_with_saved: bool,
     edge_target_restored: bool,
     non_ascii_target_restored: bool,
@@ -109,6 +111,8 @@ struct Built {
 const SAME: u8 = 0x80;
 /// `f | DEFAULT`: the target's `default_text` – writes the INITIAL value again
 const DEFAULT: u8 = 0x40;
+/// `f | NOOP`: the target's `noop_text` (`\\let X=X`, `\\advance X by 0`) – cannot change the value, scopes like any assignment
+const NOOP: u8 = 0x20;
 const SEP: char = ';';
 const TSEP: char = ',';
 const END: char = ':';
@@ -194,8 +198,11 @@ impl<'a> Prog<'a> {
                     let kind = self.kinds[self.targets[tgt].0];
                     let same = f & SAME != 0;
                     let dflt = f & DEFAULT != 0;
-                    let form = &self.target(tgt).forms[(f & !(SAME | DEFAULT)) as usize];
-                    let i = if same {
+                    let noop = f & NOOP != 0;
+                    let form = &self.target(tgt).forms[(f & !(SAME | DEFAULT | NOOP)) as usize];
+                    let i = if noop {
+                        0
+                    } else if same {
                         // out of domain while the target still has its initial value (no form writes that)
                         mi.get(tgt).parse::<usize>().ok()?
                     } else {
@@ -219,7 +226,14 @@ impl<'a> Prog<'a> {
                     if gd == 0 && !g && !form.gdef && prefixed_under_positive && m.depth() >= 1 {
                         flags.prefix_under_positive_globaldefs_then_plain_at_zero = true;
                     }
-                    let mut new = (form.apply)(m.get(tgt), i);
+                    let mut new = if noop { m.get(tgt).to_string() } else { (form.apply)(m.get(tgt), i) };
+                    if noop && scope == model::Scope::Global && m.some_group_holds_save(tgt) {
+                        if kind.class == Class::Variable {
+                            flags.global_noop_arithmetic_while_group_holds_save = true;
+                        } else {
+                            flags.global_self_alias_after_local_redefinition = true;
+                        }
+                    }
                     if dflt {
                         new = self.target(tgt).initial.clone();
                         if m.some_group_holds_save(tgt) {
@@ -232,9 +246,12 @@ impl<'a> Prog<'a> {
                             flags.global_same_value_while_group_holds_save = true;
                         }
                     }
-                    mi.assign(tgt, if dflt { String::new() } else { i.to_string() }, scope);
+                    let cur_index = mi.get(tgt).to_string();
+                    mi.assign(tgt, if dflt { String::new() } else if noop { cur_index } else { i.to_string() }, scope);
                     src.push_str(if g { form.prefixes.1 } else { form.prefixes.0 });
-                    if dflt {
+                    if noop {
+                        src.push_str(self.target(tgt).noop_text.as_ref()?);
+                    } else if dflt {
                         // out of domain for targets whose initial value cannot be written (undefined names)
                         src.push_str(self.target(tgt).default_text.as_ref()?);
                     } else {
@@ -263,7 +280,7 @@ impl<'a> Prog<'a> {
     }
     /// Human-readable history up to and including op `upto` (exclusive end).
     fn shape(&self, upto: usize) -> String {
-        let simple = self.targets.len() == 1 && self.ops.iter().all(|o| !matches!(o, Op::Assign { f, .. } if *f & !(SAME | DEFAULT) != 0));
+        let simple = self.targets.len() == 1 && self.ops.iter().all(|o| !matches!(o, Op::Assign { f, .. } if *f & !(SAME | DEFAULT | NOOP) != 0));
         let mut s = String::new();
         for op in &self.ops[..upto.min(self.ops.len())] {
             if !s.is_empty() {
@@ -282,9 +299,12 @@ impl<'a> Prog<'a> {
                     if f & DEFAULT != 0 {
                         s.push('0');
                     }
+                    if f & NOOP != 0 {
+                        s.push_str("self");
+                    }
                     if !simple {
                         let t = self.target(tgt as usize);
-                        s.push_str(&format!("({}:{})", t.name, t.forms[(f & !(SAME | DEFAULT)) as usize].name));
+                        s.push_str(&format!("({}:{})", t.name, t.forms[(f & !(SAME | DEFAULT | NOOP)) as usize].name));
                     }
                 }
             }
@@ -413,6 +433,8 @@ fn run_case(idx: u64, prog: &Prog, acc: &mut Acc) -> Option<(Built, Vec<Vec<Stri
         (f.globaldefs_forced_local, "globaldefs_negative_overrode_global_prefix"),
         (f.global_same_value_while_group_holds_save, "global_assignment_of_current_value_while_a_group_holds_a_save"),
         (f.default_value_while_group_holds_save, "initial_value_assigned_again_while_a_group_holds_a_save"),
+        (f.global_self_alias_after_local_redefinition, "global_self_alias_after_local_redefinition"),
+        (f.global_noop_arithmetic_while_group_holds_save, "global_advance_by_zero_while_a_group_holds_a_save"),
         (f.implicit_close_with_saved, "implicit_brace_closes_group_with_saved_value"),
         (f.edge_target_restored, "first_or_last_element_target_restored"),
         (f.non_ascii_target_restored, "non_ascii_named_target_restored"),
@@ -468,7 +490,7 @@ fn run_case(idx: u64, prog: &Prog, acc: &mut Acc) -> Option<(Built, Vec<Vec<Stri
                     Op::Close => "}".into(),
                     Op::OpenImplicit => "\\bg".into(),
                     Op::CloseImplicit => "\\eg".into(),
-                    Op::Assign { tgt, f, g } => format!("{}{}:{}", if g { "\\global " } else { "" }, prog.kinds[prog.targets[tgt as usize].0].name, if f & SAME != 0 { format!("{} (same value)", prog.target(tgt as usize).forms[(f & !SAME) as usize].name) } else if f & DEFAULT != 0 { "initial value again".to_string() } else { prog.target(tgt as usize).forms[f as usize].name.to_string() }),
+                    Op::Assign { tgt, f, g } => format!("{}{}:{}", if g { "\\global " } else { "" }, prog.kinds[prog.targets[tgt as usize].0].name, if f & SAME != 0 { format!("{} (same value)", prog.target(tgt as usize).forms[(f & !SAME) as usize].name) } else if f & DEFAULT != 0 { "initial value again".to_string() } else if f & NOOP != 0 { "no-op assignment (\\let X=X / \\advance by 0)".to_string() } else { prog.target(tgt as usize).forms[f as usize].name.to_string() }),
                 }
             };
             acc.class(&format!("FAIL {kindnames}: first divergence after `{last_op}`"));
@@ -818,6 +840,18 @@ fn main() {
         }
         run_hist_family(&mut ctx, "initial-value-histories", &format!("per kind whose initial value can be written ({nk} kinds: registers 0 / empty, codes, \\endlinechar, aliases back to their first register, \\fnz = null font): every history of exactly {len} ops over {{, }}, L(new), G(new), L(initial value), G(initial value)"), blocks, 4007);
     }
+    // ---- (n) assignments that cannot change the value: \\let X=X for every command kind, \\advance X by 0 for arithmetic variables
+    {
+        let len = ctx.pick(5usize, 7usize);
+        let alpha = vec![Op::Open, Op::Close, Op::Assign { tgt: 0, f: 0, g: false }, Op::Assign { tgt: 0, f: 0, g: true }, Op::Assign { tgt: 0, f: NOOP, g: false }, Op::Assign { tgt: 0, f: NOOP, g: true }];
+        let mut blocks = Blocks::new();
+        let mut nk = 0;
+        for k in all.iter().filter(|k| k.targets[0].noop_text.is_some()) {
+            nk += 1;
+            blocks.push(HistBlock { kinds: vec![k], targets: vec![(0, 0)], len, alpha: alpha.clone() }, pow(alpha.len(), len));
+        }
+        run_hist_family(&mut ctx, "noop-assignment-histories", &format!("per kind with a value-preserving assignment ({nk} kinds: \\let X=X for macro, \\let, \\countdef, \\toksdef, \\chardef, \\mathchardef targets, control sequences and active characters; \\advance X by 0 for count, dimen, skip, \\endlinechar, \\year, \\newInt, array elements): every history of exactly {len} ops over {{, }}, L(new), G(new), L(no-op), G(no-op)"), blocks, 4003);
+    }
     // ---- (i) groups delimited by implicit braces (\let\bg={ \let\eg=}), mixed with explicit ones
     {
         let len = ctx.pick(5usize, 6usize);
@@ -886,6 +920,12 @@ fn main() {
             }
             let deadline = std::time::Instant::now() + std::time::Duration::from_secs_f64(ctx.remaining_s());
             let init: (usize, Vec<Vec<String>>) = (0, vec![vec![k.targets[0].initial.clone()]]);
+            let mut alpha = alpha.clone();
+            if k.targets[0].noop_text.is_some() {
+                alpha.push(Op::Assign { tgt: 0, f: NOOP, g: false });
+                alpha.push(Op::Assign { tgt: 0, f: NOOP, g: true });
+            }
+            let alpha = &alpha;
             let (acc, stats) = vcore::xs::bfs(alpha.len(), depth, 2_000_000, ctx.threads, deadline, init, |h, acc| {
                 let prog = Prog { family: "xs-drained-state", kinds: vec![k], targets: vec![(0, 0)], ops: h.iter().map(|a| alpha[*a as usize]).collect(), rule: ValueRule::ByDepth, drain: true };
                 // bound of the search: nesting depth 0..8 (the property's range)
@@ -913,7 +953,7 @@ fn main() {
         total.sample(0, || json!({"family": "xs-drained-state", "per_kind": per_kind.get("count")}));
         ctx.extra("xs", json!({"history_length_bound": depth, "nesting_bound": 8, "per_kind": per_kind,
             "fingerprint": "(depth, value of the target at every open level) read from the real VM by running the history followed by `}` x depth with a probe after each `}`; the assigned value is a function of (depth, prefix) so that merged states have equal futures in the model. States that differ only in whether a save-stack entry holds a value equal to the current one are not distinguished (the un-merged BEX families cover those)."}));
-        ctx.push_family("xs-drained-state", &format!("per kind: BFS over histories of {{, }}, local, \\global with a new value (= f(depth, prefix)) and local, \\global with the value that is current (first target) up to length {depth} at nesting depth <= 8, every history followed by a full drain with a probe after each `}}`; merged on the drained implementation state{}", if quick { "" } else { " (runs to the fixpoint: the complete reachable state space)" }), capped.is_none(), capped, t.elapsed().as_secs_f64(), total);
+        ctx.push_family("xs-drained-state", &format!("per kind: BFS over histories of {{, }}, local, \\global with a new value (= f(depth, prefix)) and local, \\global with the value that is current, and local, \\global no-op assignments (\\let X=X / \\advance X by 0) where the kind has one (first target) up to length {depth} at nesting depth <= 8, every history followed by a full drain with a probe after each `}}`; merged on the drained implementation state{}", if quick { "" } else { " (runs to the fixpoint: the complete reachable state space)" }), capped.is_none(), capped, t.elapsed().as_secs_f64(), total);
     }
 
     // informational, outside the property: \gdef under a negative \globaldefs (tex.web §1218: local)
@@ -938,6 +978,8 @@ fn main() {
     ctx.require("global_prefix_under_positive_globaldefs_then_plain_assignment_at_zero", "a \\global-prefixed assignment ran while \\globaldefs>0 and a later unprefixed assignment ran inside a group with \\globaldefs=0");
     ctx.require("global_assignment_of_current_value_while_a_group_holds_a_save", "a global assignment writes the value that is already current while an open group holds a saved value for the target");
     ctx.require("initial_value_assigned_again_while_a_group_holds_a_save", "an assignment writes the initial (default) value while an open group holds a saved value for the target");
+    ctx.require("global_self_alias_after_local_redefinition", "\\global\\let X=X executed while an open group holds a saved meaning of X");
+    ctx.require("global_advance_by_zero_while_a_group_holds_a_save", "\\global\\advance X by 0 executed while an open group holds a saved value of X");
     ctx.require("implicit_brace_closes_group_with_saved_value", "a group that holds a saved value is closed by an implicit brace (\\let\\eg=})");
     ctx.require("first_or_last_element_target_restored", "a closing group restores register 0 / 32767 / 255, code-table entry 0 / 127 / 128 / U+10FFFE or the first / last array element");
     ctx.require("non_ascii_named_target_restored", "a closing group restores a target whose name is a 2-, 3- or 4-byte character");
